@@ -1,14 +1,16 @@
-\* The model WITHOUT the exemptions of the known findings KF-C17-1/2 (F4): TLC
-\* must refute CInv_Refusal (AsmSyntaxError for a small negative integer).
+\* The model WITHOUT the exemptions of the OPEN findings of C17: TLC must refute
+\* CInv_Refusal (KF-C17-2: push of an integer that is no sign-extended imm32)
+\* or CInv_ArgsAtCall (KF-C17-3: symbol arguments loaded instead of addressed).
 SPECIFICATION CSpec
 CONSTANTS
-  GenAbis = {"arm64"}
+  GenAbis = {"x64elf"}
   Wide = FALSE
   ScratchVals = {0}
-  ArgCounts = {0, 1}
-  SingleCounts = {1}
+  ArgCounts = {0, 1, 7}
+  SingleCounts = {7}
   RotStep = 5
   Emit = FALSE
   Strict = TRUE
 INVARIANT CInv_Refusal
+INVARIANT CInv_ArgsAtCall
 CHECK_DEADLOCK FALSE
